@@ -661,8 +661,8 @@ theorem client_ip_shorthand_matches_source :
 /-! ## the PROXY protocol listener wrapper: who may say what the remote address is -/
 
 /-- **a PROXY header is believed only with permission.** If the accepted connection's remote address is
-    anything but the socket's own, then the socket is a unix/fd socket, or the parsed peer address is in
-    no `deny` range and is in an `allow` range or the operator chose fallback USE / REQUIRE. -/
+    anything but the socket's own, then the socket is a unix/fd socket, or the peer's address (zone
+    aside) is in no `deny` range and is in an `allow` range or the operator chose fallback USE / REQUIRE. -/
 theorem proxy_claim_needs_permission (N : Net Addr Prefix) (cfg : PPCfg Prefix) (network peer : Bytes)
     (claim : Option Bytes) (a : Accepted)
     (h : wrapAccept N cfg network peer claim = some a) (hne : a.remote ≠ peer) :
@@ -681,30 +681,35 @@ theorem proxy_claim_needs_permission (N : Net Addr Prefix) (cfg : PPCfg Prefix) 
       simp only [hs] at h ⊢
       cases hp' : N.parseAddr hp.1 with
       | none => simp [hp'] at h
-      | some ip =>
-        simp only [hp'] at h
-        refine ⟨ip, rfl, ?_⟩
-        cases hd : cfg.deny.any (fun r => N.contains r ip) with
-        | true =>
-          simp only [hd, if_true, Option.some.injEq] at h
-          subst h
-          exfalso; apply hne
-          cases claim <;> rfl
-        | false =>
-          refine ⟨rfl, ?_⟩
-          simp only [hd, Bool.false_eq_true, if_false] at h
-          cases hal : cfg.allow.any (fun r => N.contains r ip) with
-          | true => exact Or.inl rfl
-          | false =>
-            right
-            simp only [hal, Bool.false_eq_true, if_false, Option.some.injEq] at h
+      | some ip0 =>
+        simp only [hp'] at h ⊢
+        cases hz : N.parseAddr (cutZone hp.1) with
+        | none => simp [hz] at h
+        | some ip =>
+          simp only [hz, Option.some.injEq] at h
+          refine ⟨ip, rfl, ?_⟩
+          unfold rangePolicy at h
+          cases hd : cfg.deny.any (fun r => N.contains r ip) with
+          | true =>
+            simp only [hd, if_true] at h
             subst h
-            cases hf : cfg.fallback with
-            | use => exact Or.inl rfl
-            | require => exact Or.inr rfl
-            | ignore => exfalso; apply hne; rw [hf]; cases claim <;> rfl
-            | reject => exfalso; apply hne; rw [hf]; cases claim <;> rfl
-            | skip => exfalso; apply hne; rw [hf]; cases claim <;> rfl
+            exfalso; apply hne
+            cases claim <;> rfl
+          | false =>
+            refine ⟨rfl, ?_⟩
+            simp only [hd, Bool.false_eq_true, if_false] at h
+            cases hal : cfg.allow.any (fun r => N.contains r ip) with
+            | true => exact Or.inl rfl
+            | false =>
+              right
+              simp only [hal, Bool.false_eq_true, if_false] at h
+              subst h
+              cases hf : cfg.fallback with
+              | use => exact Or.inl rfl
+              | require => exact Or.inr rfl
+              | ignore => exfalso; apply hne; rw [hf]; cases claim <;> rfl
+              | reject => exfalso; apply hne; rw [hf]; cases claim <;> rfl
+              | skip => exfalso; apply hne; rw [hf]; cases claim <;> rfl
 
 /-- **the default is safe.** With `fallback_policy` left at its default (IGNORE), a TCP peer outside every
     `allow` range keeps its own address whatever PROXY header it sends; the header is swallowed. -/
@@ -738,28 +743,29 @@ theorem fallback_names (name : Bytes) (p : PPolicy) (h : parsePolicy name = some
           · cases h; assumption
           · cases h
 
-/- FULL statement about `deny`: a peer whose address — zone aside — lies in a `deny` range never gets its
-   PROXY header believed:
-     ∀ N cfg peer host port ip claim a, splitHostPort peer = some (host, port) → N.parseAddr (cutZone host) = some ip →
-       cfg.deny.any (N.contains · ip) → wrapAccept N cfg "tcp" peer claim = some a → a.remote = peer
-   It FAILS on the tree as it is: `denied_peer_never_believed_full_fails` (Witness.lean) — the zone is not cut
-   before the containment tests and no prefix contains a zoned address. -/
-
-/-- **deny wins — partial.** Outside the explicit exclusion "the peer's host carries a zone"
-    (`cutZone host ≠ host`), a peer in a `deny` range never gets its PROXY header believed, and a
-    connection that sends one fails its first read. -/
-theorem denied_peer_never_believed_partial (N : Net Addr Prefix) (cfg : PPCfg Prefix) (network peer : Bytes)
-    (host port : Bytes) (ip : Addr) (claim : Option Bytes) (a : Accepted)
-    (hu : unixOrFd network = false)
-    (hs : splitHostPort peer = some (host, port)) (hz : cutZone host = host)
-    (hp : N.parseAddr (cutZone host) = some ip) (hd : cfg.deny.any (fun r => N.contains r ip) = true)
+/-- **deny wins — for every peer, link-local ones with their zone included.** A TCP peer whose address
+    (zone aside) lies in a `deny` range never gets its PROXY header believed, and a connection that sends
+    one fails its first read.  (The code before the repair violated this for zoned peers:
+    `denied_peer_believed_by_old_code`, Witness.lean.) -/
+theorem denied_peer_never_believed (N : Net Addr Prefix) (cfg : PPCfg Prefix) (network peer : Bytes)
+    (ip : Addr) (claim : Option Bytes) (a : Accepted)
+    (hu : unixOrFd network = false) (hp : ppPeerAddr N peer = some ip)
+    (hd : cfg.deny.any (fun r => N.contains r ip) = true)
     (h : wrapAccept N cfg network peer claim = some a) :
     a.remote = peer ∧ (claim.isSome → a.readOK = false) := by
-  rw [hz] at hp
+  unfold ppPeerAddr at hp
   unfold wrapAccept connPolicy at h
-  simp only [hu, Bool.false_eq_true, if_false, hs, hp, hd, if_true, Option.some.injEq] at h
-  subst h
-  cases claim <;> simp [underPolicy]
+  cases hs : splitHostPort peer with
+  | none => simp [hs] at hp
+  | some hp0 =>
+    simp only [hs] at hp h
+    cases hz : N.parseAddr hp0.1 with
+    | none => simp [hz] at hp
+    | some ip0 =>
+      simp only [hz] at hp h
+      simp only [hu, Bool.false_eq_true, if_false, hp, rangePolicy, hd, if_true, Option.some.injEq] at h
+      subst h
+      cases claim <;> simp [underPolicy]
 
 /-! ## provision-time reading of range expressions -/
 
@@ -929,8 +935,8 @@ example : wrapAccept toyNetZ exPP b!"tcp" b!"10.0.0.1:443" (some b!"6.6.6.6:7777
     wrapAccept toyNetZ exPP b!"tcp" b!"8.8.8.8:53" (some b!"6.6.6.6:7777") = some ⟨b!"8.8.8.8:53", false⟩ ∧
     wrapAccept toyNetZ exPP b!"tcp" b!"garbage" none = none ∧
     wrapAccept toyNetZ exPP b!"unix" b!"@" (some b!"6.6.6.6:7777") = some ⟨b!"6.6.6.6:7777", true⟩ := by decide
-example : ppPeerAddr toyNetZ b!"[fe80::1]:1" = some b!"fe80::1" ∧ unixOrFd b!"tcp" = false ∧
-    cutZone b!"fe80::1" = b!"fe80::1" ∧ cutZone b!"fe80::1%eth0" ≠ b!"fe80::1%eth0" := by decide
+example : ppPeerAddr toyNetZ b!"[fe80::1%eth0]:1" = some b!"fe80::1" ∧ unixOrFd b!"tcp" = false ∧
+    witPP.deny.any (fun r => toyNetZ.contains r b!"fe80::1") = true := by decide
 example : parsePolicy b!"Require" = some .require ∧ parsePolicy b!"bogus" = none ∧ ppFallback none = some .ignore := by decide
 -- elements_are_per_value
 example : elements [b!"a,b", b!"", b!"c"] = [b!"a", b!"b", b!"", b!"c"] := by decide
